@@ -40,7 +40,7 @@ func newSet(kind string, cmpF func(a, b int) int, vs ...int) sets.Set[int] {
 func (x *setInst) Fam() string  { return "set" }
 func (x *setInst) Kind() string { return x.kind }
 func (x *setInst) Cfg() Ev {
-	return Ev{"zero": 0, "sorted": x.kind == "treeset", "cmp": x.cmp, "linked": x.kind == "linkedhashset"}
+	return Ev{"zero": 0, "sorted": x.kind == "treeset", "cmp": baseCmp(x.cmp), "linked": x.kind == "linkedhashset"}
 }
 func (x *setInst) Target() any        { return x.s }
 func (x *setInst) Mask() reflect.Type { return nil }
@@ -114,6 +114,8 @@ func (x *setInst) Do(c Call) []any {
 		return []any{firstLine(s.String())}
 	case "New":
 		x.s = newSet(x.kind, x.cmpF, append([]int(nil), c.Vs...)...)
+	case "FromJSON":
+		return []any{s.(jsonable).FromJSON(mustJSON(ints(c.Vs))) == nil}
 	default:
 		die("set: unknown op %s", c.Op)
 	}
@@ -153,7 +155,11 @@ func (u *setUniverse) Calls(x Inst) []Call {
 	}
 	cs = append(cs, Call{Op: "Remove", Vs: []int{u.n}}, Call{Op: "Contains", Vs: []int{1, u.n}}, Call{Op: "Remove", Vs: []int{-1}},
 		Call{Op: "Clear"}, Call{Op: "Values"}, Call{Op: "Size"}, Call{Op: "Empty"}, Call{Op: "String"},
-		Call{Op: "New", Vs: []int{2, 0, 2}}, Call{Op: "New", Vs: []int{}})
+		Call{Op: "New", Vs: []int{2, 0, 2}}, Call{Op: "New", Vs: []int{}},
+		Call{Op: "FromJSON", Vs: []int{}}, Call{Op: "FromJSON", Vs: []int{2, 0, 2, 1}},
+		// long argument lists: members, non-members and duplicates mixed
+		Call{Op: "Remove", Vs: []int{1, 3, 100, 101, 102, 0, 104, 105, 1}}, Call{Op: "Add", Vs: []int{3, 0, 3, 1, 2, 1, 0, 2, 3, 3}},
+		Call{Op: "Contains", Vs: []int{0, 0, 0, 0, 0, 0, 0, 0}})
 	return cs
 }
 
@@ -280,14 +286,14 @@ func jobAlg(j *jobCtx) {
 		probe = append(probe, v)
 	}
 	type cfgT struct{ kind, cmp string }
-	cfgs := []cfgT{{"hashset", ""}, {"linkedhashset", ""}, {"treeset", "nat"}, {"treeset", "rev"}, {"treeset", "half"}}
+	cfgs := []cfgT{{"hashset", ""}, {"linkedhashset", ""}, {"treeset", "nat"}, {"treeset", "revx"}, {"treeset", "half"}}
 	subs := subsets(n)
 	for _, c := range cfgs {
 		if !j.want(c.kind) {
 			continue
 		}
 		f := cmpInt(c.cmp)
-		cfg := Ev{"zero": 0, "sorted": c.kind == "treeset", "cmp": c.cmp, "linked": c.kind == "linkedhashset"}
+		cfg := Ev{"zero": 0, "sorted": c.kind == "treeset", "cmp": baseCmp(c.cmp), "linked": c.kind == "linkedhashset"}
 		for ai, am := range subs {
 			for bi, bm := range subs {
 				for _, op := range []string{"Intersection", "Union", "Difference"} {
@@ -369,7 +375,7 @@ func newHeapInst(kind, cmp string) *heapInst {
 
 func (x *heapInst) Fam() string  { return "heap" }
 func (x *heapInst) Kind() string { return x.kind }
-func (x *heapInst) Cfg() Ev      { return Ev{"zero": PE{}, "cmp": x.cmp} }
+func (x *heapInst) Cfg() Ev      { return Ev{"zero": PE{}, "cmp": baseCmp(x.cmp)} }
 func (x *heapInst) Target() any {
 	if x.h != nil {
 		return x.h
